@@ -1,6 +1,6 @@
 //! The seven real collections behind one text-operation interface.
 use crate::keys::*;
-use crate::snap::{abs, structure_oracle, Abs};
+use crate::snap::{abs, raw, structure_oracle, Abs};
 use i_tree::key::array::IntoArray;
 use i_tree::key::exp::KeyExpCollection;
 use i_tree::key::list::KeyExpList;
@@ -68,6 +68,9 @@ pub trait Coll {
     fn entries(&self) -> Result<Vec<(u32, i64, i64, i64)>, String> {
         self.abs().expect("tree").map(|a| a.inorder)
     }
+    /// raw arena contents (trees only) and the default entity of never used slots
+    fn raw(&self) -> Option<String> { None }
+    fn dflt(&self) -> String { "D 0 0 0".into() }
     /// slot-partition failure of an arena-backed tree (the state string is still printed)
     fn abs_note(&self) -> Option<String> { None }
     /// arena-backed trees only
@@ -103,6 +106,8 @@ impl<V: Val> Coll for MapC<V> {
     fn structure(&self) -> Option<Result<(usize, usize), String>> {
         Some(structure_oracle(&self.0.verif_snapshot(), &|e: &(IK, V)| e.0.k as i64))
     }
+    fn raw(&self) -> Option<String> { Some(raw(&self.0.verif_snapshot(), &|e: &(IK, V)| (e.0.k as i64, 0, e.1.to_i64()))) }
+    fn dflt(&self) -> String { format!("D 0 0 {}", V::default().to_i64()) }
 }
 
 pub struct SetC<P: Val>(pub SetTree<IK, SV<P>>);
@@ -134,6 +139,8 @@ impl<P: Val> Coll for SetC<P> {
     fn structure(&self) -> Option<Result<(usize, usize), String>> {
         Some(structure_oracle(&self.0.verif_snapshot(), &|e: &SV<P>| e.key.k as i64))
     }
+    fn raw(&self) -> Option<String> { Some(raw(&self.0.verif_snapshot(), &|e: &SV<P>| (e.key.k as i64, 0, e.payload.to_i64()))) }
+    fn dflt(&self) -> String { format!("D 0 0 {}", P::default().to_i64()) }
 }
 
 pub struct KeyC(pub KeyExpTree<IK, i32, i64>);
@@ -162,6 +169,7 @@ impl Coll for KeyC {
     fn structure(&self) -> Option<Result<(usize, usize), String>> {
         Some(structure_oracle(&self.0.verif_snapshot(), &|e: &(IK, i64)| e.0.k as i64))
     }
+    fn raw(&self) -> Option<String> { Some(raw(&self.0.verif_snapshot(), &|e: &(IK, i64)| (e.0.k as i64, e.0.exp as i64, e.1))) }
 }
 
 // ---------------------------------------------------------------------------------------------
